@@ -15,6 +15,8 @@ RULE = ('templates = all sequences of <= 3 segments over {literal "a b", "{{", "
         's.upper(), len(lst), missing, 1/0, bad (raising __str__), the empty field, the number 1, fetch() raising an exception whose __str__ fails, next(iter(())) raising one without text}, and all of <= 2 segments additionally over fields containing : ! or braces '
         '(slice, string arguments, !=, lambda, dict display, generator expression over locals); x 3 frame states x {no_collect, collect} ; two hits, fire_count=1; '
         'non-trivial = template has >= 1 field and (a literal/escape or a failing field)')
+RULE_ADDED = 'rounds 3-5: empty / numeric fields, fields raising exceptions without usable text; templates that break after well-formed fields (nothing evaluated, nothing recorded); a falsy tracepoint logger'
+RULE = RULE + ' ; ' + RULE_ADDED
 ASSUMPTIONS = ['a field is an expression: everything between an unescaped { and its matching } (python format conversions/specs are not part of the statement)',
                'the text substituted for a value whose __str__ raises is a don\'t-care (the rest of the message is checked)']
 
